@@ -348,6 +348,74 @@ def cli_cases(T, tier):
     return out
 
 
+def short(x):
+    """Long strings inside a result are replaced by head, length and digest."""
+    if isinstance(x, (list, tuple)):
+        return [short(y) for y in x]
+    if isinstance(x, dict):
+        return dict((k, short(v)) for k, v in x.items())
+    if PY2 and isinstance(x, str):
+        x = x.decode("utf-8")
+    if isinstance(x, type("")) and len(x) > 300:
+        return [x[:60], len(x), hashlib.sha256(x.encode("utf-8")).hexdigest()[:16]]
+    return x
+
+
+def scale_cases(T, tier):
+    """(label, thunk): inputs whose size, not whose content, is the point. What an interpreter does
+    with them (integer-string limits, recursion depth, regular-expression engines, buffer sizes)
+    must not show."""
+    import cvss
+    ALLC = [cvss.CVSS2, cvss.CVSS3, cvss.CVSS4]
+    v2 = "AV:N/AC:L/Au:N/C:P/I:P/A:P"
+    b3 = "AV:N/AC:L/PR:N/UI:N/S:U/C:H/I:H/A:H"
+    v4 = "CVSS:4.0/AV:N/AC:L/AT:N/PR:N/UI:N/VC:H/VI:H/VA:H/SC:N/SI:N/SA:N"
+    out = []
+    strings = [
+        ("v3 minor 5000 digits", "CVSS:3." + "1" * 5000 + "/" + b3),
+        ("v3 minor 0 x 5000 + 1", "CVSS:3." + "0" * 5000 + "1/" + b3),
+        ("v3 major 5000 digits", "CVSS:" + "3" * 5000 + ".1/" + b3),
+        ("v4 minor 5000 zeros", "CVSS:4." + "0" * 5000 + "/" + v4[9:]),
+        ("v2 value 20000 characters", v2[:-1] + "P" * 20000),
+        ("v2 3000 fields", "/".join([v2] * 500)),
+        ("v3 3000 empty fields", "CVSS:3.1/" + b3 + "/" * 3000),
+        ("v4 metric name 10000 characters", v4 + "/" + "S" * 10000 + ":P"),
+        ("colons", ":" * 20000), ("slashes", "/" * 20000),
+        ("v3.1 all metrics", "CVSS:3.1/" + b3 + "/E:X/RL:O/RC:X/CR:H/IR:X/AR:L/MAV:N/MAC:X/MPR:L/MUI:X/MS:C/MC:X/MI:N/MA:X"),
+        ("v4 all metrics", v4 + "/E:P/CR:H/IR:X/AR:L/MAV:A/MAC:X/MAT:P/MPR:X/MUI:P/MVC:X/MVI:N/MVA:X/MSC:L/MSI:S/MSA:X"
+                                "/S:P/AU:X/R:I/V:X/RE:M/U:Amber"),
+    ]
+    for label, s in strings:
+        out.append((lambda label=label, s=s: [label] + [short(obs_vector(c, s)) for c in ALLC]))
+        out.append((lambda label=label, s=s: [label, "rh"] + [short(obs_rh(c, "7.5/" + s)) for c in ALLC]))
+    for label, tok in [("5000 ones", "1" * 5000), ("7.5 and 5000 zeros", "7.5" + "0" * 5000),
+                       ("0. 5000 zeros 1", "0." + "0" * 5000 + "1"), ("1e5000", "1e5000"), ("1e-5000", "1e-5000"),
+                       ("7.5 e 5000 zeros", "7.5e" + "0" * 5000), ("5000 sevens . 5", "7" * 5000 + ".5"),
+                       ("minus 5000 blanks", " " * 5000 + "7.5"), ("plus signs", "+" * 5000 + "7.5")]:
+        for v in (v2, "CVSS:3.1/" + b3, v4):
+            out.append((lambda label=label, tok=tok, v=v: [label, v] + [short(obs_rh(c, tok + "/" + v)) for c in ALLC]))
+    many = []
+    for c in "NPC":
+        for i in "NPC":
+            for a in "NPC":
+                for e in ("U", "POC", "F", "H", "ND"):
+                    many.append("AV:N/AC:L/Au:N/C:%s/I:%s/A:%s/E:%s" % (c, i, a, e))
+    for label, t in [("135 distinct v2 twice", " ".join(many + many)),
+                     ("v3 then 100000 filler then v2", "CVSS:3.1/" + b3 + " " + "y" * 100000 + " " + v2),
+                     ("200000 A", "A" * 200000), ("AV:N/ x 30000", "AV:N/" * 30000),
+                     ("300 glued v2 then one", (v2 + "/") * 300 + " " + v2),
+                     ("CVSS:3.1/ x 2000 then body", "CVSS:3.1/" * 2000 + b3)]:
+        out.append((lambda label=label, t=t: [label, short(obs_text(t))]))
+    for ver, allm, first in ((2, False, "AV"), (3.1, False, "AV"), (4.0, True, "AV"), (3.0, True, "AV")):
+        out.append((lambda ver=ver, allm=allm: ["1500 refused answers", ver, allm,
+                                                 short(obs_builder(ver, allm, True, ["?"] * 1500 + ["N", "L"]))]))
+        out.append((lambda ver=ver, allm=allm: ["answer line of 5000 characters", ver, allm,
+                                                 short(obs_builder(ver, allm, True, ["Q" * 5000 + "N", "N", "L"]))]))
+    out.append((lambda: ["cli long vector", short(obs_cli(["-v", "CVSS:3." + "1" * 5000 + "/" + b3]))]))
+    out.append((lambda: ["cli -4 long metric", short(obs_cli(["-4", "-j", "-v", v4 + "/" + "S" * 10000 + ":P"]))]))
+    return out
+
+
 # ------------------------------------------------------------------------------ sections
 
 def section_cases(T, name, tier):
@@ -379,10 +447,12 @@ def section_cases(T, name, tier):
         return [(lambda c=c: [c[0], c[1], c[2], len(c[3]), obs_builder(*c)]) for c in builder_cases(T, tier)]
     if name == "cli":
         return [(lambda c=c: [c[0], obs_cli(*c)]) for c in cli_cases(T, tier)]
+    if name == "scale":
+        return scale_cases(T, tier)
     raise SystemExit("unknown section " + name)
 
 
-SECTIONS = ["vectors", "invalid", "rh", "texts", "builder", "cli"]
+SECTIONS = ["vectors", "invalid", "rh", "texts", "builder", "cli", "scale"]
 
 
 def main(argv):
